@@ -235,6 +235,101 @@ func family(r *ev.Run, nmax int) int {
 	return calls
 }
 
+// huge fills ONE stack and ONE queue to n values (well past 2^20), wiggling (remove 2 / insert 3) around
+// every power of two on the way up, checking Len and Peek after every call, then drains both completely:
+// a growth policy that changes above a size threshold shows here. O(n) time, one pass. The stack always
+// holds 1..size (value == height), the queue head..next-1, so the model is two counters.
+func huge(r *ev.Run, n int) int {
+	calls := 0
+	fail := func(format string, a ...any) int {
+		r.Report(ev.Violation{Sig: "family|huge", Msg: fmt.Sprintf("one-pass fill to %d: ", n) + fmt.Sprintf(format, a...), Replay: map[string]any{"family": "huge", "n": n}})
+		return calls
+	}
+	pow2ish := func(size int) bool { return size >= 8 && (size&(size-1) == 0 || (size-1)&(size-2) == 0) }
+	var st lists.Stack[int]
+	size := 0
+	push := func() string {
+		calls++
+		size++
+		st.Push(size)
+		if pv, ok := st.Peek(); !ok || pv != size || len(st) != size {
+			return fmt.Sprintf("after Push number %d: Peek = (%d,%v), Len %d, want (%d,true), %d", calls, pv, ok, len(st), size, size)
+		}
+		return ""
+	}
+	pop := func() string {
+		calls++
+		v, ok := st.Pop()
+		if !ok || v != size || len(st) != size-1 {
+			return fmt.Sprintf("Pop at size %d = (%d,%v), Len now %d", size, v, ok, len(st))
+		}
+		size--
+		return ""
+	}
+	for size < n {
+		if m := push(); m != "" {
+			return fail("stack: %s", m)
+		}
+		if pow2ish(size) {
+			for _, f := range []func() string{pop, pop, push, push, push} {
+				if m := f(); m != "" {
+					return fail("stack (wiggle at a power of two): %s", m)
+				}
+			}
+		}
+	}
+	for size > 0 {
+		if m := pop(); m != "" {
+			return fail("stack (drain): %s", m)
+		}
+	}
+	if v, ok := st.Pop(); ok || v != 0 || len(st) != 0 {
+		return fail("Pop on the drained stack = (%d,%v)", v, ok)
+	}
+	st = nil
+	var q lists.Queue[int]
+	head, next := 1, 1
+	enq := func() string {
+		calls++
+		q.Enqueue(next)
+		next++
+		if pv, ok := q.Peek(); !ok || pv != head || q.Len() != next-head {
+			return fmt.Sprintf("after Enqueue number %d: Peek = (%d,%v), Len %d, want (%d,true), %d", next-1, pv, ok, q.Len(), head, next-head)
+		}
+		return ""
+	}
+	deq := func() string {
+		calls++
+		v, ok := q.Dequeue()
+		if !ok || v != head || q.Len() != next-head-1 {
+			return fmt.Sprintf("Dequeue with %d inside = (%d,%v), want %d; Len now %d", next-head, v, ok, head, q.Len())
+		}
+		head++
+		return ""
+	}
+	for next-head < n {
+		if m := enq(); m != "" {
+			return fail("queue: %s", m)
+		}
+		if pow2ish(next - head) {
+			for _, f := range []func() string{deq, deq, enq, enq, enq} {
+				if m := f(); m != "" {
+					return fail("queue (wiggle at a power of two): %s", m)
+				}
+			}
+		}
+	}
+	for next > head {
+		if m := deq(); m != "" {
+			return fail("queue (drain): %s", m)
+		}
+	}
+	if v, ok := q.Dequeue(); ok || v != 0 || q.Len() != 0 {
+		return fail("Dequeue on the drained queue = (%d,%v)", v, ok)
+	}
+	return calls
+}
+
 func main() {
 	ev.GuardFor("C16")
 	r := ev.Start("C16")
@@ -298,11 +393,14 @@ func main() {
 		r.Set("churn_family_operations", n)
 	}
 	r.Set("family_calls", fc)
+	hn := ev.Pick(r, 1<<21+77, 1<<24+77)
+	r.Set("huge_family_calls", huge(r, hn))
+	r.Set("huge_family_size", hn)
 	r.Set("states", rq.States+rs.States)
 	r.Set("transitions", rq.Transitions+rs.Transitions)
 	r.Set("traces_validated_against_impl", rq.Transitions+rs.Transitions)
 	r.Set("max_depth", max(rq.MaxDepth, rs.MaxDepth))
 	r.Set("size_bound", n)
-	r.Set("rule", "explicit-state BFS to fixpoint from the zero value, values {1,2}, size bound as given; the fingerprint includes the stack's hidden capacity region; after every transition the container is drained and compared element by element with a slice model, then reused; plus fill/drain saw-tooth families up to thousands of elements (capacity-dependent paths) PLUS deterministic families beyond the exhaustive bound (large sizes, every single/double removal from trees built in 7 orders, long one-instance churn histories): see the *_family_* counters")
+	r.Set("rule", "explicit-state BFS to fixpoint from the zero value, values {1,2}, size bound as given; the fingerprint includes the stack's hidden capacity region; after every transition the container is drained and compared element by element with a slice model, then reused; plus fill/drain saw-tooth families up to thousands of elements (capacity-dependent paths), a one-pass fill of one stack and one queue to 2^21+77 (thorough 2^24+77) values with Len/Peek checked after every call and a complete drain, PLUS deterministic families beyond the exhaustive bound (large sizes, every single/double removal from trees built in 7 orders, long one-instance churn histories): see the *_family_* counters")
 	r.Finish()
 }
